@@ -207,6 +207,59 @@ def a1(model: Model, rep: Report):
     key = sym([p for p in f.param_names if p != f.self_name][0])
     construct = "AcquisitionRegistry.get_registry_at"
     miss = [p for p in paths if p.exit == "return" and not any(e.kind == "loopexit" for e in p.events)]
+    if not any(e.kind == "loop" for p in paths for e in p.events):
+        # closed form: L = [op.acquisition_identifier for op in listing if acquisition];  key not in L -> default;
+        #              circuit index = L.index(key);  qubit index = len([i for i in L[:L.index(key)] if i.qubit_index == key.qubit_index])
+        from .common import devar
+        listing = ("call", ("attr", ("attr", s, "reference_circuit"), "decomposed_operations"), (), ())
+        hits = [p for p in paths if p.exit == "return" and p.value is not None and p.value[0] == "new" and p.value[1] == "AcquisitionIndexInfo"]
+        others = [p for p in paths if p.exit == "return" and p not in hits]
+        if len(hits) != 1:
+            raise AnalysisError(f"{construct}: closed form with {len(hits)} answering paths (shape not recognised)")
+        d = dict(hits[0].value[2])
+        ci, qi = devar(d.get("circuit_level_index")), devar(d.get("qubit_level_index"))
+
+        def is_L(t):
+            t = devar(t)
+            return (t[0] == "comp" and t[1] == "list" and len(t[3]) == 1 and t[3][0][0] == listing and t[2][0] == "attr" and t[2][2] == "acquisition_identifier"
+                    and t[2][1][0] == "bound" and t[3][0][1] == (("isinstance", t[2][1], "IAcquisitionOperation"),))
+        ok_ci = ci[0] == "call" and isinstance(ci[1], tuple) and ci[1][0] == "attr" and ci[1][2] == "index" and is_L(ci[1][1]) and ci[2] == (key,)
+        ok_qi = False
+        if qi[0] == "call" and qi[1] == "len" and len(qi[2]) == 1:
+            c_ = devar(qi[2][0])
+            if c_[0] == "comp" and len(c_[3]) == 1:
+                dom, conds = c_[3][0]
+                dom = devar(dom)
+                b = c_[2]
+                ok_qi = (dom[0] == "slice" and is_L(dom[1]) and dom[2] in (NONE, lin({}, Fraction(0))) and devar(dom[3]) == ci and dom[4] == NONE and b[0] == "bound"
+                         and conds == (t_cmp("==", ("attr", b, "qubit_index"), ("attr", key, "qubit_index")),))
+        import itertools
+        from ..sym import eval_bool
+        atoms = []
+        for p in paths:
+            for a in atoms_of(p.cond):
+                if a not in atoms:
+                    atoms.append(a)
+        member = [a for a in atoms if a[0] == "in" and a[1] == key and is_L(a[2])]
+        nonempty = [a for a in atoms if is_L(a)]
+        foreign = [a for a in atoms if a not in member and a not in nonempty]
+        guard = False
+        if len(member) == 1 and not foreign:
+            guard = True
+            for bits in itertools.product((False, True), repeat=len(atoms)):
+                val = dict(zip(atoms, bits))
+                if val[member[0]] and not all(val[a] for a in nonempty):
+                    continue                                # a listing that contains the key is not empty
+                if eval_bool(hits[0].cond, val) != val[member[0]]:
+                    guard = False                           # answers an unlisted key, or a listed one gets the default
+        rep.check(ok_ci, "C07.A1", construct + "[circuit index]", f.loc, found=show(ci)[:120], required="position of the key in the listing of acquisition identifiers",
+                  what="the circuit-level index is not the position of the measurement among all measurements of the listing", detail="circuit-counter")
+        rep.check(ok_qi, "C07.A1", construct + "[qubit index]", f.loc, found=show(qi)[:140], required="number of earlier listed acquisitions on the same qubit",
+                  what="the qubit-level index is not the count of earlier measurements on that qubit", detail="qubit-counter")
+        rep.check(guard and all(p.value == ("attr", s, "_default") for p in others), "C07.A1", construct + "[miss]", f.loc,
+                  found="; ".join(f"{show(p.value)} if {show(p.cond)[:60]}" for p in others), required="the default exactly when the key is not listed",
+                  what="a measurement that is not in the listing does not get the default answer (or a listed one does)", detail="miss")
+        return
     if len(miss) != 1:
         raise AnalysisError(f"{construct}: unexpected shape ({len(miss)} fall-through returns)")
     p = miss[0]
